@@ -79,6 +79,26 @@ inline void Sweep::unified_neighbours()
          auto* a0 = &lex.get_as_type(*xs[std::size_t(k % 2)]); add_node("get_as_type(burst e)", a0, Category_code::As_type, [a0, e = xs[std::size_t(k % 2)]](Ck& c) { c.same("expr", &a0->expr(), e); c.yes("transfer", a0->transfer() == impl::cxx_transfer(), "natural transfer expected"); }, false);
       }
    }
+   // every route to a transfer, for the standard and a foreign linkage with the natural and a named convention, and the types
+   // built with it (a transfer obtained for one Lexicon must belong to that Lexicon or to the process-wide constants)
+   {
+      auto xs = P.distinct(P.exprs, 1); auto ts = P.distinct(plain, 1);
+      impl::Warehouse<Type> w; w.push_back(*ts[0]); auto& src = lex.get_product(w);
+      for (auto l : { "C", "C++", "Java" }) for (auto k : { "", "cdecl" }) {
+         auto& lk = lex.get_linkage(widen(l)); auto& cc = lex.get_calling_convention(widen(k));
+         const Transfer* routes[] = { &lex.get_transfer(lk, cc), *k ? nullptr : &lex.get_transfer_from_linkage(lk), std::string(l) == "C++" ? &lex.get_transfer_from_convention(cc) : nullptr };
+         for (auto xf : routes) {
+            if (!xf) continue;
+            add_other("get_transfer(route)", xf, [xf, l = std::string(l), k = std::string(k)](Ck& c) {
+               c.yes("linkage", narrow(xf->linkage().language().what().characters()) == l, "a transfer does not report the linkage it was asked for");
+               c.yes("convention", narrow(xf->convention().name().what().characters()) == k, "a transfer does not report the convention it was asked for"); });
+            auto* f = &lex.get_function(src, *ts[0], *xf);
+            add_node("get_function(route s,t,xfer)", f, Category_code::Function, [f, xf, sp = &src, t = ts[0]](Ck& c) { c.same("source", &f->source(), sp); c.same("target", &f->target(), t); c.yes("transfer", f->transfer() == *xf, "function type does not report its transfer"); c.yes("linkage", f->linkage() == xf->linkage(), "linkage() != transfer().linkage()"); }, false);
+            auto* a = &lex.get_as_type(*xs[0], *xf);
+            add_node("get_as_type(route e,xfer)", a, Category_code::As_type, [a, xf, e = xs[0]](Ck& c) { c.same("expr", &a->expr(), e); c.yes("transfer", a->transfer() == *xf, "as-type does not report its transfer"); }, false);
+         }
+      }
+   }
    // spellings that are prefixes of one another, through every spelling-keyed constructor
    {
       const char* sp[] = { "ab", "abc", "a", "ab", "abd", "", "abc" };
